@@ -241,11 +241,14 @@ class Sym:
 
     # ---------------------------------------------------------------------------------------- statements
 
-    def run(self, stmts, env: dict[str, ast.AST], strict: bool = True, where: str = "", skip=(), stop_at_return=True):
+    def run(self, stmts, env: dict[str, ast.AST], strict: bool = True, where: str = "", skip=(), stop_at_return=True,
+            on_expr=None):
         """Execute straight-line `stmts` symbolically, updating `env`; -> the expanded returned expression.
 
         strict: an unknown statement is a TranslationError (the function being translated); otherwise None is
-        returned (a helper that is not straight-line is not inlined).  `skip`: statement types to step over."""
+        returned (a helper that is not straight-line is not inlined).  `skip`: statement types to step over.
+        `on_expr(stmt, env, aliases) -> bool`: lets the matcher read an expression statement (an in-place numpy call)
+        as an update of `env`."""
         aliases: dict[str, set[str]] = {}
         ret = None
 
@@ -298,6 +301,8 @@ class Sym:
                     continue
                 if isinstance(st, ast.AnnAssign) and st.value is None and isinstance(st.target, ast.Name):
                     continue                                     # bare annotation: not evaluated
+                if on_expr is not None and isinstance(st, ast.Expr) and on_expr(st, env, aliases):
+                    continue                                     # a call statement the matcher gives a meaning to
                 if isinstance(st, ast.Assign):
                     val = self.expand(st.value, env)
                     for tgt in st.targets:
